@@ -1,0 +1,21 @@
+//go:build verif
+
+package hclwrite
+
+// Exports of internal functions for the verification harness in /verif.
+// This file is compiled only with -tags verif and adds no behaviour.
+
+// VerifFormat runs the in-place formatter on an arbitrary token sequence.
+func VerifFormat(tokens Tokens) { format(tokens) }
+
+// VerifSpaceAfterToken exposes the spacing rule table.
+func VerifSpaceAfterToken(subject, before, after *Token) bool {
+	return spaceAfterToken(subject, before, after)
+}
+
+// VerifLexConfig returns the writer tokens (with SpacesBefore derived from
+// byte gaps) for the given source.
+func VerifLexConfig(src []byte) Tokens { return lexConfig(src) }
+
+// VerifFileTokens returns the tokens of a file's tree before formatting.
+func VerifFileTokens(f *File) Tokens { return f.inTree.children.BuildTokens(nil) }
